@@ -150,6 +150,10 @@ func c17Forwarder(r *Run) {
 	src.MaxRedeliver = 3
 	src.Lanes = 1 + t.Skewed(3)
 	byEnvelope := map[string]*c17Item{}
+	var pending []struct {
+		pos int
+		m   *message.Message
+	}
 	for i := 0; i < n; i++ {
 		it := c17RandomItem(t, i)
 		it.uuid = fmt.Sprintf("%s#%d", it.uuid, i) // unique, still arbitrary
@@ -178,7 +182,13 @@ func c17Forwarder(r *Run) {
 				r.Fail("C17.R1", "forwarder.Publisher did not publish one envelope on the forwarder topic", "topic %q", c.Topic)
 				return
 			}
-			env = ScriptMsg{UUID: c.Snap[0].UUID, Payload: string(c.Snap[0].Payload), Metadata: copyMeta(c.Snap[0].Metadata)}
+			// the outbox keeps the published message object (like a buffering publisher): it is read only after
+			// every message has been published, so an envelope must not change once Publish has returned
+			pending = append(pending, struct {
+				pos int
+				m   *message.Message
+			}{len(src.Script[effTopic]), c.Msgs[0]})
+			env = ScriptMsg{UUID: c.Msgs[0].UUID}
 		case 1:
 			env = ScriptMsg{UUID: fmt.Sprintf("bad-%d", i), Payload: "{ this is not json"}
 		default:
@@ -186,6 +196,10 @@ func c17Forwarder(r *Run) {
 		}
 		byEnvelope[env.UUID] = it
 		src.Script[effTopic] = append(src.Script[effTopic], env)
+	}
+	for _, pe := range pending {
+		src.Script[effTopic][pe.pos].Payload = string(pe.m.Payload)
+		src.Script[effTopic][pe.pos].Metadata = copyMeta(pe.m.Metadata)
 	}
 	dest := &c17Dest{pub: NewScriptedPublisher(r, "destination"), callsOf: map[*Delivery][]*PubCall{}}
 	c17Faults(t, dest.pub)
